@@ -134,3 +134,24 @@ func writeBeforeRead(env *Env, g *Gen, prop string) []frame.Result {
 	}
 	return out
 }
+
+func init() {
+	Register(&Property{
+		ID:       "C03",
+		Packages: []string{"pkg/prebuild"},
+		Generate: func(env *Env) *Gen {
+			g := genStandard(env, "C03", true, nil)
+			roots := rootsOf(env, g, []string{"pkg/prebuild:getFamily", "pkg/prebuild/directive:filterRuleForUs", "pkg/prebuild/directive:filter"})
+			reach := frame.Reachable(env.Prog, roots)
+			g.Static = append(g.Static, frame.MapRanges(env.Prog, reach, mapRangeJustifications(env), checkJustification(env))...)
+			g.Unverified = []string{
+				"the text surgery: marker removal (Option.Clean, a regexp built from the directive name), paragraph removal by a regexp compiled from the directive's own text, preservation of unguarded lines",
+				"that directive.Run finds every directive of the file (one regexp scan of the original text)",
+			}
+			g.Assumptions = append(g.Assumptions,
+				"fmt.Sprintf with a literal format is a deterministic function of its arguments (one uninterpreted symbol per format string): the contract of filterRuleForUs names the formats abi%d and apparmor%.1f",
+				"Option.Clean and Option.IsInline are deterministic functions of the option and the text")
+			return g
+		},
+	})
+}
